@@ -2706,6 +2706,9 @@ class Interp:
                             return v_
             if k == "c" and name in ("join", "translate", "format", "startswith", "endswith"):
                 args = [_py(a) for a in args]
+            if k == "c" and isinstance(rc[1], (str, bytes)) and not hasattr(rc[1], name) and not name.startswith("_"):
+                # Python 3: str has no decode, bytes no encode / format - the call raises before anything else happens
+                raise _Raise(("ext", "AttributeError", []), "AttributeError: '%s' object has no attribute '%s'" % (type(rc[1]).__name__, name))
             if k == "c" and all(a[0] == "c" for a in args) and not kwargs:
                 try:
                     r = getattr(rc[1], name)(*[a[1] for a in args])
